@@ -31,11 +31,15 @@ func c01Observe(text string) M {
 		return o
 	}
 	o["str"] = s
-	if strings.Contains(s, "[REDACTED]") {
-		// password text is redacted on purpose; write a placeholder literal back so that the
-		// rest of the printed statement can still be re-parsed (compared modulo Password)
-		s = strings.Replace(s, "[REDACTED]", "'redacted'", -1)
-		o["redacted"] = true
+	// password text is redacted on purpose; write a placeholder literal back so that the rest of the
+	// printed statement can still be re-parsed (compared modulo Password).  Only the password clause of a
+	// password statement is touched (its LAST "[REDACTED]": a name may spell the word too).
+	switch st.(type) {
+	case *influxql.CreateUserStatement, *influxql.SetPasswordUserStatement:
+		if i := strings.LastIndex(s, "[REDACTED]"); i >= 0 {
+			s = s[:i] + "'redacted'" + s[i+len("[REDACTED]"):]
+			o["redacted"] = true
+		}
 	}
 	var st2 influxql.Statement
 	if p := guard(func() { st2, err = influxql.ParseStatement(s) }); p != "" {
